@@ -1,179 +1,51 @@
 #!/usr/bin/env python
-"""Scratch version of the per-property check entry point.
+"""Entry point of every registered check.
 
-  check.py C08 [--tier quick|thorough] [--seed N] [--replay FILE]
+  ./check Cnn [--tier quick|thorough] [--seed N] [--replay FILE]
 
-exit 0: held on everything explored; exit 1 + "VIOLATION property=<id> replay=<path>" otherwise;
-exit 2: infrastructure problem (never a verdict).
+exit 0: the property held on everything explored (KNOWN-FINDING lines are informational);
+exit 1: a line `VIOLATION property=<id> replay=<path>` was printed;
+exit 2: infrastructure problem, never a verdict.
 """
-import argparse, json, os, random, subprocess, sys, time, hashlib, fcntl, re, tempfile
+import argparse, importlib, json, os, sys, time, traceback, warnings
 
 HERE = os.path.dirname(os.path.abspath(__file__))
-ROOT = os.environ.get('VERIF_ROOT', os.path.dirname(HERE))
-LEAN = os.environ.get('VERIF_LEAN', os.path.join(ROOT, 'lean'))
-REPO = os.environ.get('VERIF_REPO', '/repo')
-DRIVER = os.path.join(LEAN, '.lake', 'build', 'bin', 'd2pdriver')
-EVID = os.path.join(ROOT, 'evidence'); REPLAYS = os.path.join(ROOT, 'replays')
-ALLOWED_AXIOMS = {'propext', 'Classical.choice', 'Quot.sound'}
-sys.path.insert(0, HERE); sys.path.insert(0, REPO)
-os.environ.setdefault('DOCX2PYTHON_VERIF', '1')
+sys.path.insert(0, HERE)
+import common
+from common import Ctx, Driver, build, finish
 
-PROPS = {  # property -> (Lean file(s) whose failure breaks it, theorem names to audit)
-    'C01': (['Props/C01.lean', 'Proofs/Shape.lean', 'Proofs/ShapeWalk.lean'], ['C01_walk_shape', 'C01_pars', 'C01_views', 'C01_check']),
-    'C08': (['Props/C08.lean', 'Props/C08Count.lean', 'Proofs/Replace.lean'], ['C08_roman_correct', 'C08_roman_reject', 'C08_letters_inverse', 'C08_letters_injective', 'C08_letters_reject', 'C08_counter_invariant', 'C08_next_ordinal']),
-    'C20': (['Props/C20.lean'], ['C20_branches', 'C20_enum_iff', 'C20_sorted', 'C20_iter_is_projection', 'C20_bad_depth']),
-}
-
-def sh(cmd, **kw): return subprocess.run(cmd, capture_output=True, text=True, **kw)
-
-def build(prop):
-    """regenerate tables from the live source, rebuild, audit. Returns (obligations, discharged, notes, broken)"""
-    notes = []; broken = []
-    lock = open(os.path.join(LEAN, '.build.lock'), 'w'); fcntl.flock(lock, fcntl.LOCK_EX)
-    try:
-        g = sh([sys.executable, os.path.join(HERE, 'gen_tables.py')], env={**os.environ, 'PYTHONPATH': REPO})
-        gen_path = os.path.join(LEAN, 'D2P', 'Model', 'Generated.lean')
-        if g.returncode not in (0, 3) or not g.stdout.strip():
-            broken.append('gen_tables.py failed: ' + g.stderr[-400:])
-        else:
-            if g.returncode == 3: broken += [l for l in g.stderr.splitlines() if l.startswith('BROKEN-TIE')]
-            if not os.path.exists(gen_path) or open(gen_path).read() != g.stdout:
-                open(gen_path, 'w').write(g.stdout); notes.append('Generated.lean changed')
-        b = sh(['lake', 'build', 'D2P', 'd2pdriver'], cwd=LEAN)
-        if b.returncode != 0:
-            errs = re.findall(r'error: (D2P/\S+?\.lean):(\d+):\d+: (.*)', b.stdout + b.stderr)
-            mine = [e for e in errs if any(e[0].endswith(f) for f in PROPS[prop][0]) or e[0].endswith(('Model/Tie.lean',)) or '/Model/' in e[0]]
-            for f, ln, msg in (mine or errs)[:5]: broken.append(f'lean: {f}:{ln}: {msg[:160]}')
-            if not errs: broken.append('lake build failed: ' + (b.stdout + b.stderr)[-300:])
-    finally:
-        fcntl.flock(lock, fcntl.LOCK_UN)
-    # audit
-    thms = PROPS[prop][1]; discharged = 0
-    if not any(x.startswith('lean:') or x.startswith('lake') for x in broken):
-        src = 'import D2P\nopen D2P\n' + ''.join(f'#print axioms {t}\n' for t in thms)
-        with tempfile.NamedTemporaryFile('w', suffix='.lean', dir=LEAN, delete=False) as f: f.write(src); tmp = f.name
-        a = sh(['lake', 'env', 'lean', tmp], cwd=LEAN); os.unlink(tmp)
-        for t in thms:
-            m = re.search(r"'D2P\." + re.escape(t) + r"' (depends on axioms: \[([^\]]*)\]|does not depend on any axioms)", a.stdout)
-            if not m: broken.append(f'audit: theorem {t} not found'); continue
-            ax = set(x.strip() for x in (m.group(2) or '').split(',') if x.strip())
-            if ax <= ALLOWED_AXIOMS: discharged += 1
-            else: broken.append(f'audit: {t} uses axioms {sorted(ax - ALLOWED_AXIOMS)}')
-        bad = sh(['grep', '-rnE', r'sorry|admit|native_decide|bv_decide|implemented_by|^axiom |unsafe |maxHeartbeats 0', os.path.join(LEAN, 'D2P')])
-        hits = [l for l in bad.stdout.splitlines() if not re.search(r':\s*(--|/-)', l) and 'Do not edit' not in l]
-        if hits: broken.append('audit: forbidden token: ' + hits[0][:160])
-    return len(thms), discharged, notes, broken
-
-class Driver:
-    def __init__(self):
-        self.p = subprocess.Popen([DRIVER], stdin=subprocess.PIPE, stdout=subprocess.PIPE, text=True, bufsize=1)
-    def ask(self, obj):
-        self.p.stdin.write(json.dumps(obj) + '\n'); self.p.stdin.flush()
-        return json.loads(self.p.stdout.readline())
-    def close(self): self.p.stdin.close(); self.p.wait()
-
-def guard(f):
-    try: return {'ok': f()}
-    except Exception as e: return {'err': type(e).__name__}
-
-# ----------------------------------------------------------------------------- C08 (renderers)
-def run_C08(rng, tier, drv, st):
-    from docx2python import numbering_formats as nums
-    top = 20000 if tier == 'quick' else 200000
-    ns = list(range(-3, top)) + [rng.randrange(top, 10**7) for _ in range(50)]
-    romans = {}
-    for n in ns:
-        impl = {'lower_letter': guard(lambda: nums.lower_letter(n)), 'upper_letter': guard(lambda: nums.upper_letter(n)), 'decimal': nums.decimal(n)}
-        want_roman = n < 4100 or n % 997 == 0
-        if want_roman and n < 60000: impl.update({'lower_roman': guard(lambda: nums.lower_roman(n)), 'upper_roman': guard(lambda: nums.upper_roman(n))})
-        m = drv.ask({'op': 'render', 'n': n, 'roman': 'lower_roman' in impl})
-        st['evaluations'] += 1
-        for k, v in impl.items():
-            if m[k] != v: st['diffs'].append({'kind': 'correspondence', 'input': {'renderer': k, 'n': n}, 'impl': v, 'model': m[k]})
-        # the property on the implementation's own output: distinct, order, rejection
-        if n < 1:
-            for k in ('lower_letter', 'upper_letter', 'lower_roman', 'upper_roman'):
-                if k in impl and impl[k] != {'err': 'ValueError'}: st['fails'].append({'what': f'{k}({n}) does not raise ValueError', 'input': {'renderer': k, 'n': n}, 'observed': impl[k]})
-        elif 'lower_roman' in impl and 'ok' in impl['lower_roman']:
-            r = impl['lower_roman']['ok']
-            if r in romans: st['fails'].append({'what': 'two ordinals share a Roman rendering', 'input': {'n': [romans[r], n]}, 'observed': r})
-            romans[r] = n
-        if n >= 1 and len(st['samples']) < 5 and n % 377 == 0: st['samples'].append({'n': n, 'impl': impl})
-    st['nontrivial'] = sum(1 for n in ns if n >= 27)
-    st['rule'] = 'every ordinal -3..%d plus 50 random larger ones through the four renderers; non-trivial = more than one letter (n >= 27)' % top
-
-# ----------------------------------------------------------------------------- C20
-def gen_nested(rng, depth, wide_level=None):
-    """ragged nested list; at most ONE level is wide (threshold-guarded mutants), the others stay narrow"""
-    if depth == 0: return rng.choice(['a', 'bc', '', 'é'])
-    if wide_level == depth: w = rng.choice([50, 300, 1000])
-    elif wide_level is not None: w = rng.choice([1, 1, 2])
-    else: w = rng.choice([0, 1, 2, 3, 4])
-    return [gen_nested(rng, depth - 1, wide_level) for _ in range(w)]
-def run_C20(rng, tier, drv, st):
-    from docx2python import iterators as it
-    n = 400 if tier == 'quick' else 20000
-    for i in range(n):
-        d = rng.choice([1, 2, 3, 4, 5]); dd = d + rng.choice([0, 0, 0, 1]) if d < 5 else 5
-        v = gen_nested(rng, dd, (dd if rng.random() < 0.5 else rng.randint(1, dd)) if rng.random() < 0.25 else None)
-        ask = rng.choice([d, d, d, d, 0, 6, -1, 7]) if rng.random() < 0.2 else d
-        impl = {'enum': guard(lambda: [[list(a), x] for a, x in it.enum_at_depth(v, ask)]), 'iter': guard(lambda: list(it.iter_at_depth(v, ask)))}
-        m = drv.ask({'op': 'enum', 'v': v, 'depth': ask}); st['evaluations'] += 1
-        if m != impl: st['diffs'].append({'kind': 'correspondence', 'input': {'v': v, 'depth': ask}, 'impl': impl, 'model': m})
-        if 'ok' in impl['enum']:
-            pairs = impl['enum']['ok']; addrs = [tuple(a) for a, _ in pairs]
-            ok = addrs == sorted(set(addrs)) and all(len(a) == ask for a in addrs)
-            for a, x in pairs:
-                y = v
-                for k in a: y = y[k]
-                ok = ok and y == x
-            ok = ok and impl['iter'].get('ok') == [x for _, x in pairs]
-            def all_addrs(x, k):   # every valid address of length k, independently of the code under test
-                if k == 0: return [()]
-                return [(i,) + r for i, y in enumerate(x) for r in all_addrs(y, k - 1)]
-            ok = ok and addrs == all_addrs(v, ask)
-            if not ok: st['fails'].append({'what': 'enum_at_depth: wrong / unordered / repeated addresses', 'input': {'v': v, 'depth': ask}, 'observed': impl})
-            if len(pairs) > 3: st['nontrivial'] += 1
-        elif not (1 <= ask <= 5):
-            if impl['enum'] != {'err': 'ValueError'}: st['fails'].append({'what': 'bad depth does not raise ValueError', 'input': {'v': v, 'depth': ask}, 'observed': impl})
-        if len(st['samples']) < 4 and i % 97 == 0: st['samples'].append({'v': v, 'depth': ask, 'impl': impl})
-    st['rule'] = 'random ragged nested lists (widths 0-4, sometimes one level up to 300 wide), depths 1-5 and out-of-range; non-trivial = more than 3 items yielded'
-
-RUNNERS = {'C08': run_C08, 'C20': run_C20}
 
 def main():
-    ap = argparse.ArgumentParser(); ap.add_argument('prop'); ap.add_argument('--tier', default=os.environ.get('VERIF_TIER', 'quick'))
-    ap.add_argument('--seed', type=int, default=int(os.environ.get('VERIF_SEED', '0'))); ap.add_argument('--replay')
-    a = ap.parse_args(); t0 = time.time()
-    if a.prop not in RUNNERS: print('no runner for', a.prop); return 2
-    os.makedirs(EVID, exist_ok=True); os.makedirs(REPLAYS, exist_ok=True)
-    obligations, discharged, notes, broken = build(a.prop)
-    st = {'evaluations': 0, 'nontrivial': 0, 'diffs': [], 'fails': [], 'samples': [], 'rule': ''}
-    if os.path.exists(DRIVER):
-        drv = Driver(); RUNNERS[a.prop](random.Random(a.seed), a.tier, drv, st); drv.close()
-    else: broken.append('driver missing')
-    violations = []
-    def replay(kind, payload):
-        h = hashlib.sha256(json.dumps(payload, sort_keys=True, default=str).encode()).hexdigest()[:12]
-        p = os.path.join(REPLAYS, f'{a.prop}-{a.seed}-{h}.json')
-        json.dump({'property': a.prop, 'kind': kind, 'seed': a.seed, 'tier': a.tier, **payload, 'replay_cmd': f'./check {a.prop} --replay {p}'}, open(p, 'w'), indent=1, default=str)
-        return p
-    if st['fails']:
-        violations.append(f"VIOLATION property={a.prop} replay={replay('failing-input', st['fails'][0])}")
-    elif st['diffs'] or broken:
-        payload = {'broken': broken, 'first_difference': st['diffs'][0] if st['diffs'] else None,
-                   'searched': f"{st['evaluations']} inputs with the property's checker on the implementation output: none failed"}
-        violations.append(f"VIOLATION property={a.prop} replay={replay('tie-broken', payload)} no-failing-input-found")
-    ev = {'property_id': a.prop, 'tier': a.tier, 'seed': a.seed, 'level': 'proof', 'wall_s': round(time.time() - t0, 2), 'violations': len(violations),
-          'coverage': {'obligations': obligations, 'discharged': discharged, 'checker_cmd': 'cd lean && lake build D2P d2pdriver && lake env lean <#print axioms file>',
-                       'trusted_base': ['Lean 4.33.0 kernel', 'axioms: propext, Classical.choice, Quot.sound', 'gen_tables.py', 'correspondence harness + JSON driver', 'lxml/zipfile behaviour as modelled'],
-                       'evaluations': st['evaluations'], 'distinct_nontrivial': st['nontrivial'], 'rule': st['rule'], 'samples': st['samples'][:5],
-                       'traces_validated_against_impl': st['evaluations'] - len(st['diffs']), 'notes': notes, 'broken': broken},
-          'assumptions': ['model <-> code agreement is established on the explored inputs only']}
-    json.dump(ev, open(os.path.join(EVID, a.prop + '.json'), 'w'), indent=1, default=str)
-    for v in violations: print(v)
-    print(f"{a.prop}: {discharged}/{obligations} theorems, {st['evaluations']} evaluations, {len(st['diffs'])} differences, {len(st['fails'])} property failures, {round(time.time()-t0,1)} s")
-    return 1 if violations else 0
+    ap = argparse.ArgumentParser()
+    ap.add_argument('prop')
+    ap.add_argument('--tier', default=os.environ.get('VERIF_TIER', 'quick'), choices=['quick', 'thorough'])
+    ap.add_argument('--seed', type=int, default=int(os.environ.get('VERIF_SEED', '0') or 0))
+    ap.add_argument('--replay')
+    a = ap.parse_args()
+    warnings.simplefilter('ignore')
+    try:
+        mod = importlib.import_module('props.' + a.prop.lower())
+    except ImportError as e:
+        print('no runner for', a.prop, e); return 2
+    ctx = Ctx(a.prop, a.tier, a.seed)
+    binfo = build(a.prop, thorough=(a.tier == 'thorough'))
+    if not os.path.exists(common.DRIVER):
+        print('model driver could not be built:', binfo['broken']); return 2
+    ctx.drv = Driver()
+    try:
+        if a.replay:
+            rep = json.load(open(a.replay))
+            mod.replay(ctx, rep)
+        else:
+            mod.run(ctx)
+    finally:
+        ctx.drv.close()
+    return finish(ctx, binfo)
+
 
 if __name__ == '__main__':
-    sys.exit(main())
+    try:
+        sys.exit(main())
+    except SystemExit: raise
+    except Exception:
+        traceback.print_exc(); sys.exit(2)
